@@ -348,7 +348,7 @@ func futureSends(c *Ctx) []futSend {
 				continue
 			}
 			f := engine.ChanField(op.Chan)
-			if f == nil || c.P.LookupField("Raft", f.Name()) != f {
+			if f == nil || c.P.LookupField("Raft", engine.FieldName(f)) != f {
 				continue // only queues of the Raft struct
 			}
 			v := op.Send
@@ -407,7 +407,7 @@ func c17R3(c *Ctx, rule string) {
 		if name == "(*verifyFuture).vote" {
 			continue // internal notification, not an API enqueue; see C09.R5
 		}
-		c.Check(rule, fmt.Sprintf("%s:send %s on %s", name, s.ftype, s.field.Name()), c.P.InstrPos(s.op.Instr),
+		c.Check(rule, fmt.Sprintf("%s:send %s on %s", name, s.ftype, engine.FieldName(s.field)), c.P.InstrPos(s.op.Instr),
 			"the enqueue is a select case next to <-shutdownCh (or default): a caller can never block on a queue nobody serves any more", s.op.Select != nil && s.escape,
 			pick(s.op.Select != nil && s.escape, "escape present", "plain or unescaped send"), 1)
 	}
@@ -449,7 +449,7 @@ func c17R4(c *Ctx, rule string) {
 			continue
 		}
 		n++
-		key := fmt.Sprintf("%s:%s on buffered %s", name, s.ftype, s.field.Name())
+		key := fmt.Sprintf("%s:%s on buffered %s", name, s.ftype, engine.FieldName(s.field))
 		require := "a future queued on a buffered channel (" + capD + ") has deferError.ShutdownCh assigned before the send, so Error() returns ErrRaftShutdown when the loops have exited and the select picked the (always ready) send"
 		if s.ftype == "[]*commitTuple" {
 			// futures inside a queued batch: do log futures ever get a ShutdownCh?
